@@ -22,6 +22,7 @@ inductive Ev
   | serveReadErr
   | serveExit
   | callAbort (i : Nat)
+  | giveUp (i : Nat)
   | sever
   deriving Repr, DecidableEq
 
@@ -101,6 +102,13 @@ def apply (fx : Bool) (cap : Nat) (s : St) : Ev → Option St
     | some c =>
       if isWaiting c.st = true ∧ fx = true ∧ s.serve = .done then
         some (s.setSt i (fun c => { c with st := .done (.err 1) }))
+      else none
+    | none => none
+  | .giveUp i =>
+    match s.callers[i]? with
+    | some c =>
+      if (c.st = .checked ∨ isWaiting c.st = true) ∧ c.cancellable = true then
+        some (s.setSt i (fun c => { c with st := .done (.err 6) }))
       else none
     | none => none
   | .sever => if s.connAlive = true then some { s with connAlive := false } else none
@@ -200,6 +208,14 @@ theorem apply_sound (fx : Bool) (cap : Nat) (s s' : St) (ev : Ev) (h : apply fx 
     · rename_i c hc
       split at h
       · rename_i hs; injection h with h; subst h; exact Step.callAbort s i c hc hs.1 hs.2.1 hs.2.2
+      · cases h
+    · cases h
+  | giveUp i =>
+    simp only [apply] at h
+    split at h
+    · rename_i c hc
+      split at h
+      · rename_i hs; injection h with h; subst h; exact Step.giveUp s i c hc hs.1 hs.2
       · cases h
     · cases h
   | sever =>
